@@ -8,14 +8,18 @@
       composite calls (the cJSON_Add…ToObject helpers, cJSON_AddItemReferenceTo…) are the
       composition of the models of their pieces, as the C code is;
     * [pre_ok3] / [pre_ok3b]: the documented ownership rules as a predicate / a BOOLEAN CHECKER on
-      the abstract state ([pre_ok3b_sound]);
+      the abstract state ([pre_ok3b_sound]); calls the API refuses (NULL arguments, indices out of
+      range, missing keys, self-insertion, [CoreHistoryAllNull.refused2]) are ACCEPTED by the
+      checker — their model is "failure value, state unchanged";
+    * the bulk array constructors with explicit identities (CoreHistoryAllArr*.v), cJSON_CreateString
+      of a NULL string (node allocated and released again);
     * [step_sim3]: one call — returns (no error outcome), the model's result, [Abs3] again;
     * [history_sim3], [history3_from_empty]: every history accepted by the checker. *)
 From CJ Require Import Base Dbl Heap Forest ForestLemmas CoreSpec CoreDefs CoreRefineBase CoreRefine
   CoreRefineDelete CoreRefineReplace CoreRefineMore CoreRefineFrame CoreRefineHistory CoreRefineObject
   CoreRefineByKey CoreRefineAddObject CoreRefineHistoryObj CoreRefineHistoryObjEx CoreRefineReplaceKey
   CoreRefineReplaceKeyAbs CoreRefineCreate CoreRefineSet CoreRefineRef CoreRefineArray CoreLedgerGen CoreHistoryAllSteps
-  CoreHistoryAllArr CoreHistoryAllArrStep.
+  CoreHistoryAllArr CoreHistoryAllArrStep CoreHistoryAllNull.
 From CJ.gen Require Import Constants.
 From Coq Require Import Floats.SpecFloat.
 From stdpp Require Import gmap.
@@ -195,7 +199,7 @@ Definition spec_step3 (S : astate2) (o : op3) : astate2 * res3 :=
 (** * the documented ownership rules *)
 Definition pre_ok3 (S : astate2) (o : op3) : Prop :=
   match o with
-  | O2 o => pre_ok2 S o
+  | O2 o => pre_ok2 S o \/ refused2 S o
   | OCreateNumber _ | OCreateStringReference _ | OCreateObjectReference _ | OCreateArrayReference _ => True
   | OCreateString s | OCreateRaw s => s = None \/ name_ok S s
   | OAddItemReferenceToArray a i =>
@@ -207,7 +211,7 @@ Definition pre_ok3 (S : astate2) (o : op3) : Prop :=
   | OSetNumberValue x _ | OSetIntValue x _ | OSetBoolValue x _ | OGetStringValue x | OGetNumberValue x => node_or_null S x
   | OSetValuestring x v => pre_set_valuestring S x v
   | OAddToObject k ob n => pre_created S k /\ pre_add_or_delete (spec_created S k).1 (spec_created S k).2 ob n
-  | OHasObjectItem ob n => pre_ok2 S (OGetKey ob n false)
+  | OHasObjectItem ob n => pre_ok2 S (OGetKey ob n false) \/ refused2 S (OGetKey ob n false)
   | OCreateIntArray l c => pre_bulk l c (fun _ => True)
   | OCreateFloatArray l c | OCreateDoubleArray l c => pre_bulk l c (fun _ => True)
   | OCreateStringArray l c => pre_bulk l c (fun strs => strings_ok S strs c)
@@ -249,7 +253,7 @@ Proof.
   intros HA Hpre. revert h HA. change (Step (run_op3 o) S (spec_step3 S o).1 (spec_step3 S o).2).
   destruct o as [o|n|s|s|s|c|c|a i|ob n i|ob n r cs|x n|x z|x b|x v|k ob n|ob n|x|x|l c|l c|l c|l c];
     cbn [run_op3 spec_step3 pre_ok3] in *; cbn zeta.
-  - apply (Step_wrap R). by apply Step_op2.
+  - apply (Step_wrap R). destruct Hpre as [Hpre|Hpre]; [by apply Step_op2|by apply Step_refused2].
   - apply (Step_wrap (fun q => R (RPtr q))). apply Step_CreateNumber.
   - apply (Step_wrap (fun q => R (RPtr q))). by apply Step_create_string_like.
   - apply (Step_wrap (fun q => R (RPtr q))). by apply Step_create_string_like.
@@ -278,7 +282,8 @@ Proof.
     eapply Step_bind; [by apply Step_created|]. unfold add_created_to_object. by apply Step_add_or_delete.
   - (* cJSON_HasObjectItem *)
     apply (Step_wrap (fun b => R (RBool b))). unfold cJSON_HasObjectItem, cJSON_GetObjectItem.
-    eapply Step_bind; [by apply Step_get_object_item|]. apply Step_ret.
+    eapply Step_bind; [|apply Step_ret]. apply (Step_unwrap RPtr res_ptr); [done|].
+    destruct Hpre as [Hpre|Hpre]; [by apply (Step_op2 S (OGetKey ob n false))|by apply (Step_refused2 S (OGetKey ob n false))].
   - apply (Step_wrap (fun q => R (RPtr q))). by apply Step_GetStringValue.
   - apply (Step_wrap RDbl). by apply Step_GetNumberValue.
   - (* cJSON_CreateIntArray *)
@@ -394,6 +399,7 @@ Definition pre_replace_keyb (S : astate2) (object name replacement : ptr) : bool
   is_none replacement || is_none name ||
   match object, replacement with
   | Some p, Some r => movableb (a_forest S) p r && name_okb S name
+  | None, Some r => ref_targetb S (Some r) && name_okb S name
   | _, _ => false
   end.
 
@@ -405,7 +411,7 @@ Definition pre_bulkb {A} (arg : option (list A)) (count : Z) (P : list A -> bool
 
 Definition pre_ok3b (S : astate2) (o : op3) : bool :=
   match o with
-  | O2 o => pre_ok2b S o
+  | O2 o => pre_ok2b S o || refused2b S o
   | OCreateNumber _ | OCreateStringReference _ | OCreateObjectReference _ | OCreateArrayReference _ => true
   | OCreateString s | OCreateRaw s => is_none s || name_okb S s
   | OAddItemReferenceToArray a i =>
@@ -417,7 +423,7 @@ Definition pre_ok3b (S : astate2) (o : op3) : bool :=
   | OSetNumberValue x _ | OSetIntValue x _ | OSetBoolValue x _ | OGetStringValue x | OGetNumberValue x => ref_targetb S x
   | OSetValuestring x v => pre_set_valuestringb S x v
   | OAddToObject k ob n => pre_createdb S k && pre_add_or_deleteb (spec_created S k).1 (spec_created S k).2 ob n
-  | OHasObjectItem ob n => pre_ok2b S (OGetKey ob n false)
+  | OHasObjectItem ob n => pre_ok2b S (OGetKey ob n false) || refused2b S (OGetKey ob n false)
   | OCreateIntArray l c => pre_bulkb l c (fun _ => true)
   | OCreateFloatArray l c | OCreateDoubleArray l c => pre_bulkb l c (fun _ => true)
   | OCreateStringArray l c => pre_bulkb l c (fun strs => forallb (name_okb S) (take (Z.to_nat c) strs))
@@ -449,8 +455,9 @@ Qed.
 Lemma pre_ok3b_sound S o : pre_ok3b S o = true -> pre_ok3 S o.
 Proof.
   destruct o as [o|n|s|s|s|c|c|a i|ob n i|ob n r cs|x n|x z|x b|x v|k ob n|ob n|x|x|l c|l c|l c|l c]; cbn [pre_ok3b pre_ok3]; intros H;
-    try done; try (by apply opt_name_okb_sound); try (by apply ref_targetb_sound); try (by apply pre_ok2b_sound);
-    try (by apply (pre_bulkb_sound _ _ _ _ (fun _ _ => I) H)).
+    try done; try (by apply opt_name_okb_sound); try (by apply ref_targetb_sound);
+    try (by apply (pre_bulkb_sound _ _ _ _ (fun _ _ => I) H));
+    try (apply orb_true_iff in H as [H|H]; [left; by apply pre_ok2b_sound|right; by apply refused2b_sound]).
   - apply orb_true_iff in H as [H|H]; [left; by apply is_none_true|right].
     apply andb_true_iff in H as [H1 H2]. split; [by apply ref_targetb_sound|by apply pre_ok2b_sound].
   - apply orb_true_iff in H as [H|H]; [apply orb_true_iff in H as [H|H]; [left|right; left]; by apply is_none_true|].
@@ -458,8 +465,12 @@ Proof.
     split; [by apply ref_targetb_sound|by apply pre_add_or_deleteb_sound].
   - unfold pre_replace_keyb in H. unfold pre_replace_key.
     apply orb_true_iff in H as [H|H]; [apply orb_true_iff in H as [H|H]; left; [left|right]; by apply is_none_true|].
-    right. destruct ob as [p|], r as [r|]; try done. apply andb_true_iff in H as [H1 H2].
-    exists p, r. split_and!; [done|done|by apply movableb_sound|by apply name_okb_sound].
+    right. destruct ob as [p|], r as [r|]; try done; apply andb_true_iff in H as [H1 H2].
+    + left. exists p, r. split_and!; [done|done|by apply movableb_sound|by apply name_okb_sound].
+    + right. split; [done|]. apply name_okb_sound in H2 as Hn. destruct Hn as (nb & s0 & -> & Hs0 & Hz0).
+      exists nb, r. split_and!; try done.
+      * destruct (ref_targetb_sound _ _ H1) as [?|(y & [= <-] & Hy)]; done.
+      * by exists nb, s0.
   - unfold pre_set_valuestringb in H. unfold pre_set_valuestring. destruct x as [x|]; [|by left]. right.
     destruct (find_tree x (a_forest S)) as [nd|] eqn:Hx; [|done]. exists x, nd. split; [done|]. split; [done|].
     apply orb_true_iff in H as [H|H].
